@@ -124,9 +124,14 @@ def pcAfter (env : Env) (n : Node) (r : Resolver) (pc : Address) : Except Err (R
     | .ok bs => (addrAdd pc bs.length).map fun a => (r, a)
   | .ascii s => (addrAdd pc (asciiBytes s).length).map fun a => (r, a)
 
-/-- `_check_label_address` (F02 repair) -/
+/-- `_check_label_address` (F02 repairs): the label still sits at the address it was resolved to, and the
+    name evaluates to that address in its scope (it is not hidden by a `=` symbol or a block parameter) -/
 def checkLabel (r : Resolver) (name : String) (cur : Address) : Except Err Unit :=
-  if alookup name r.cur.labels = some (cur.logical : Int) then .ok () else .error (.node "label-moved" (-1))
+  if alookup name r.cur.labels = some (cur.logical : Int) then
+    match r.valueFor name with
+    | .int v => if v = (cur.logical : Int) then .ok () else .error (.node "label-hidden" (-1))
+    | _ => .error (.node "label-hidden" (-1))
+  else .error (.node "label-moved" (-1))
 
 /-- `RelativeJumpOpcode.emit` -/
 def emitRelative (r : Resolver) (e : OpEntry) (v : Int) : Except Err (List Nat) :=
